@@ -124,4 +124,84 @@ theorem GInvB.hold_owned {w : World} (h : GInvB w) {e : HTag} (he : e ∈ w.ev.p
 theorem GInvB.nonzero {w : World} (h : GInvB w) {e : HTag} (he : e ∈ w.ev.pending) (hc : e.item.c = 0) :
     e.item.a ≠ aIntr ∧ e.item.a ≠ aResume ∧ e.item.a ≠ aPreempt := h.nz e he hc
 
+/-! ### one cause per SUCCESS return -/
+
+/-- the library wake-ups that can make a suspended call return SUCCESS -/
+def isWake (a : Nat) : Prop := a = aTime ∨ a = aProc ∨ a = aEvent ∨ a = aRes ∨ a = aCond
+
+/-- the cause of a pending SUCCESS wake-up, by kind -/
+inductive Cause (w : World) (e : HTag) (p : Pid) : Prop
+  | hold : e.item.a = aTime → (w.proc p).blocked = some (.hold e.key) → Cause w e p
+  | proc (q : Pid) : e.item.a = aProc → (w.proc p).blocked = some (.waitProc q) → Cause w e p
+  | event (k : Nat) : e.item.a = aEvent → (w.proc p).blocked = some (.waitEvent k) → Cause w e p
+  | grant (f : Frame) (g : Nat) : isGrant e → (w.proc p).blocked = some f → FrameOn w f g → ¬ queued w g (p + 1) → Cause w e p
+
+/-- NoStaleInv: every pending SUCCESS wake-up is addressed to a process that is suspended, right now, in exactly the
+    call that wake-up belongs to: a timer in the hold that armed it, a process-end wake-up in `wait_process`, an
+    event-done wake-up in `wait_event`, a grant / condition wake-up in a wait on a guard (and the process is already off
+    the waiting list) -/
+theorem AllInv.success_cause {w : World} (h : AllInv w) {e : HTag} (he : e ∈ w.ev.pending) (hc : e.item.c = 0)
+    (hk : isWake e.item.a) {p : Pid} (hb : e.item.b = p + 1) : Cause w e p := by
+  rcases hk with ha | ha | ha | ha | ha
+  · obtain ⟨p', hb', hf⟩ := h.g.hold_owned he ha hc
+    have : p' = p := by omega
+    subst this
+    exact .hold ha hf
+  · obtain ⟨p', q, hb', hf, _⟩ := h.p.procWake_owned he ha
+    have : p' = p := by omega
+    subst this
+    exact .proc q ha hf
+  · obtain ⟨p', k, hb', hf, _⟩ := h.p.eventWake_owned he ha
+    have : p' = p := by omega
+    subst this
+    exact .event k ha hf
+  · have hg : isGrant e := Or.inl ⟨ha, hc⟩
+    obtain ⟨p', g, f, hb', hf, hon, _, hnq, _⟩ := h.g.grant_owned he hg
+    have : p' = p := by omega
+    subst this
+    exact .grant f g hg hf hon hnq
+  · have hg : isGrant e := Or.inr ha
+    obtain ⟨p', g, f, hb', hf, hon, _, hnq, _⟩ := h.g.grant_owned he hg
+    have : p' = p := by omega
+    subst this
+    exact .grant f g hg hf hon hnq
+
+/-- "for exactly one cause": at most one SUCCESS wake-up is pending for a process at any time -/
+theorem AllInv.one_success_wakeup {w : World} (h : AllInv w) {e1 e2 : HTag} (h1 : e1 ∈ w.ev.pending)
+    (h2 : e2 ∈ w.ev.pending) (hc1 : e1.item.c = 0) (hc2 : e2.item.c = 0) (hk1 : isWake e1.item.a) (hk2 : isWake e2.item.a)
+    {p : Pid} (hb1 : e1.item.b = p + 1) (hb2 : e2.item.b = p + 1) : e1 = e2 := by
+  have c1 := h.success_cause h1 hc1 hk1 hb1
+  have c2 := h.success_cause h2 hc2 hk2 hb2
+  cases c1 with
+  | hold a1 f1 =>
+    cases c2 with
+    | hold a2 f2 =>
+      rw [f1] at f2
+      exact HashHeap.eq_of_key_eq h.g.ei.part.keysNodup h1 h2 (Frame.hold.inj (Option.some.inj f2))
+    | proc q a2 f2 => rw [f1] at f2; cases f2
+    | event k a2 f2 => rw [f1] at f2; cases f2
+    | grant f g _ f2 hon _ => rw [f1] at f2; cases f2; exact hon.elim
+  | proc q a1 f1 =>
+    cases c2 with
+    | hold a2 f2 => rw [f1] at f2; cases f2
+    | proc q' a2 f2 =>
+      obtain ⟨p', _, hb', _, _, _, _, hu⟩ := h.p.procWake_owned h1 a1
+      exact (hu e2 h2 a2 (hb2.trans (hb1.symm.trans hb'))).symm
+    | event k a2 f2 => rw [f1] at f2; cases f2
+    | grant f g _ f2 hon _ => rw [f1] at f2; cases f2; exact hon.elim
+  | event k a1 f1 =>
+    cases c2 with
+    | hold a2 f2 => rw [f1] at f2; cases f2
+    | proc q a2 f2 => rw [f1] at f2; cases f2
+    | event k' a2 f2 =>
+      obtain ⟨p', _, hb', _, _, _, _, _, hu⟩ := h.p.eventWake_owned h1 a1
+      exact (hu e2 h2 a2 (hb2.trans (hb1.symm.trans hb'))).symm
+    | grant f g _ f2 hon _ => rw [f1] at f2; cases f2; exact hon.elim
+  | grant f g g1 f1 hon _ =>
+    cases c2 with
+    | hold a2 f2 => rw [f1] at f2; cases f2; exact hon.elim
+    | proc q a2 f2 => rw [f1] at f2; cases f2; exact hon.elim
+    | event k a2 f2 => rw [f1] at f2; cases f2; exact hon.elim
+    | grant f' g' g2 _ _ _ => exact h.g.gu e1 h1 e2 h2 g1 g2 (hb1.trans hb2.symm) (noEx_not _)
+
 end CimbaModel.Sim.S3
